@@ -170,7 +170,8 @@ type Event struct {
 type Inject struct {
 	Actor string `json:"actor"`
 	N     int    `json:"n"`    // 1-based index among the actor's operations on cache files
-	Kind  string `json:"kind"` // crash | fail | short
+	Kind  string `json:"kind"` // crash | fail | short | tear (N-th write of an index entry cut after K bytes, then the process is gone)
+	K     int    `json:"k,omitempty"`
 }
 
 type RunRec struct {
@@ -209,6 +210,8 @@ type runner struct {
 	l1     []string
 	after  string // actor to freeze after its current operation
 	reopen bool   // every operation goes through a Cache value opened just before it
+	idxWrites int
+	tearing   bool
 }
 
 func (r *runner) log(e Event) {
@@ -257,11 +260,33 @@ func (r *runner) Before(op *vos.Op) vos.Action {
 			return vos.Action{Err: syscall.ENOSPC}
 		}
 	}
+	if in := r.inject; in != nil && in.Actor == name && in.Kind == "tear" && op.Kind == "write" && strings.HasPrefix(cls, "a:") {
+		r.mu.Lock()
+		r.idxWrites++
+		hit := r.idxWrites == in.N
+		r.mu.Unlock()
+		if hit {
+			ev.Fail = true
+			ev.K = in.K
+			r.log(ev)
+			r.tearing = true
+			return vos.Action{Err: syscall.ENOSPC, Short: in.K}
+		}
+	}
 	r.log(ev)
 	return vos.Action{}
 }
 
-func (r *runner) After(op *vos.Op, n int, err error) {}
+func (r *runner) After(op *vos.Op, n int, err error) {
+	if r.tearing {
+		// the write was cut short and the process is gone: nothing it would have done about the error happens
+		r.tearing = false
+		if s := vsched.Cur(); s != nil {
+			r.log(Event{Ev: "crash", A: s.Current().Name})
+			s.Freeze()
+		}
+	}
+}
 
 func classify(data []byte) string {
 	for _, c := range contentNames {
@@ -302,7 +327,13 @@ func (r *runner) lookup(c *cache.Cache, kind, id string) (res string, l1 []strin
 			l1 = append(l1, fmt.Sprintf("GetBytes(%s) returned %d bytes whose SHA-256 is not the reported OutputID", id, len(data)))
 		}
 		if int64(len(data)) != e.Size {
-			l1 = append(l1, fmt.Sprintf("GetBytes(%s) returned %d bytes, reported size %d", id, len(data), e.Size))
+			if tornIndexRun {
+				// an index entry torn by a cut write can pair the new output id with the old size field: GetBytes checks
+				// the hash alone, and for a damaged entry the statements (C05, C12) demand no more than that of it
+				atomic.AddInt64(&staleSizeSeen, 1)
+			} else {
+				l1 = append(l1, fmt.Sprintf("GetBytes(%s) returned %d bytes, reported size %d", id, len(data), e.Size))
+			}
 		}
 		n := classify(data)
 		if n == "UNKNOWN" {
@@ -352,6 +383,10 @@ func (r *runner) put(c *cache.Cache, o Op) string {
 }
 
 var putSeq int64
+
+// tornIndexRun: the runs of mode "tear"; staleSizeSeen: lookups in them that returned complete bytes with a stale reported size
+var tornIndexRun bool
+var staleSizeSeen int64
 var reopenSeq int64
 
 func (r *runner) actor(c *cache.Cache, name string, ops []Op) func() {
@@ -775,6 +810,21 @@ func main() {
 						res.Sample(map[string]interface{}{"start": cfg.Start, "prog": cfg.Prog["w1"], "inject": rec.Inject, "fresh": rec.Fresh}, 3)
 					}
 				}
+			}
+		}
+	case "tear":
+		// the write of an index entry is cut after k bytes and the process is gone before anything else happens (the entry
+		// is overwritten in place: what it held before shows through behind the cut).  Judged on the contract alone
+		// (family "free": no replay against Cache.tla, which has no partial writes).
+		tornIndexRun = true
+		defer func() { res.Count("torn_entry_read_back_with_stale_size (not demanded by the statement)", atomic.LoadInt64(&staleSizeSeen)) }()
+		for _, pair := range [][2]string{{"c0", "c2"}, {"c2", "c0"}, {"c3", "c1"}, {"c1", "c1"}} {
+			for k := 1; k < 167; k++ {
+				cfg := Config{Start: "empty", Prog: Prog{"w1": {{Op: "put", ID: "i1", C: pair[0], Rd: "same"}, {Op: "put", ID: "i1", C: pair[1], Rd: "same"}}, "w2": {}, "r1": {}}}
+				rec := runOne("free", "tear", cfg, &vsched.Replay{}, &Inject{Actor: "w1", N: 2, Kind: "tear", K: k})
+				col.add(rec)
+				res.Eval(true)
+				res.Count("inject_tear", 1)
 			}
 		}
 	case "free":
